@@ -21,8 +21,10 @@ for c in cases:
         if c['old'] not in s:
             print(f"SELFTEST {c['name']}: STALE (pattern not found in {c['file']})"); bad += 1; continue
         open(p, 'w').write(s.replace(c['old'], c['new'], 1))
+        # cmd/pkappa2 cannot be linked in this sandbox (web/web.go embeds the frontend build, which is absent):
+        # there the edit is only type-checked by the loader of gvc
         b = subprocess.run(['go', 'build', './' + os.path.dirname(c['file'])], cwd=scratch, env=env, capture_output=True, text=True)
-        if b.returncode != 0:
+        if b.returncode != 0 and not c['file'].startswith('cmd/'):
             print(f"SELFTEST {c['name']}: DOES NOT COMPILE {b.stderr[:200]}"); bad += 1; continue
         e = dict(env); e['GVC_REPO'] = scratch
         r = subprocess.run([os.environ.get('GVC_BIN', '/verif/bin/gvc'), 'verify', '-f', c['func'], '-t', '20', c['pkg']], env=e, capture_output=True, text=True)
